@@ -495,6 +495,12 @@ def layout_cases(tier, d, rng):
         for off in range(0, len(vals), 700):
             pr = [dict(imm(m, v), form=bool((off // 700) % 2)) for v in vals[off:off + 700]] + [imm('LDAC', 0)]
             cases.append({'id': 'imm:%s:%d' % (m, off), 'prog': pr, 'src': src_of(pr)})
+    # the same programs in other lexical clothes: a comment as the last line WITHOUT a newline, a label as the last directive, no newline
+    # at all (assembly has to terminate and to lay the directives out as before)
+    for c in random_cases(rng, 12) + sweep_cases(False)[::97]:
+        for tag, tail in (('cmt', "# end"), ('cmtnl', "# end\n# more"), ('nonl', None)):
+            src = c['src'].rstrip('\n') + ("\n" + tail if tail is not None else "")
+            cases.append(dict(c, id='tail:%s:%s' % (tag, c['id']), src=src))
     import corpus
     tdir = corpus.tools()
     cases += corpus_cases(d, tdir)
